@@ -465,7 +465,7 @@ def worker(task):
         bb = None
         try:
             n, n_lower, n_upper, obs, lo, hi = observed_part(task["case"])
-            if n >= 3 and len(obs) > 0 and well_formed_c(task["case"]):
+            if n >= 3 and len(obs) > 0:
                 bb = black_boxes(task["case"])
                 spec_side(task, out)
         except Exception:
@@ -474,11 +474,6 @@ def worker(task):
         return out
     except Exception:
         return dict(harness_error=traceback.format_exc()[-1500:])
-
-
-def well_formed_c(case):
-    v = case["constraints"].get("c")
-    return v is None or v[0] != "x" or True
 
 
 def run_pool(tasks, procs=None):
